@@ -24,10 +24,10 @@ WATCHDOG = {"quick": 900, "thorough": 3600}
 
 
 def plan(tier, seed):
-    n = 900 if tier == "quick" else 30000
+    n = 3000 if tier == "quick" else 40000
     cases = [{"mode": "sim", "seed": seed, "idx": i} for i in range(n)]
     cases += [{"mode": "live", "seed": seed, "idx": i} for i in range(120 if tier == "quick" else 4000)]
-    cases += [{"mode": "raw", "seed": seed, "idx": i} for i in range(100 if tier == "quick" else 2000)]
+    cases += [{"mode": "raw", "seed": seed, "idx": i} for i in range(200 if tier == "quick" else 3000)]
     # directed case for the listed finding C20-first-update-closed
     cases.insert(0, {"mode": "sim", "seed": seed, "idx": 3, "directed_first_closed": True})
     return cases
